@@ -99,7 +99,7 @@ def gen_cases(tier, rng):
                 for seg in range(1, len(data) + 2):
                     ops.append([0, ty, 1, n, seg] + list(data))
         cases.append(ops)
-    nrand = 250 if tier == "quick" else 2500
+    nrand = 250 if tier == "quick" else 20000
     maxlen = 600 if tier == "quick" else 2048
     for _ in range(nrand):
         ln = rng.choice([0, 1, 2, 3, 4, 5, 7, 8, 9, 63, 64, 65, rng.randint(0, maxlen)])
@@ -124,7 +124,7 @@ def gen_cases(tier, rng):
                         host.append([0, ty, ex, n, seg] + list(data))
                         host.append([1, ty, ex, n, seg, 0, 0, 0, 0] + list(data))
     cases.append(host)
-    return cases
+    return list(common.share(cases))
 
 
 def eof_checksums(v, tier, rng):
@@ -160,6 +160,28 @@ def eof_checksums(v, tier, rng):
                                 f"checksum of the {g['fsize']} bytes sent is {want.hex()}",
                                 {"kind": "source", "ops": side[1][:i + 1], "clause": "EOF checksum"})
                     return n
+    # any history: several transactions on one handler pair, cancels (either side) and lost ACKs in a later transaction, so
+    # that EOF and EOF (cancel) PDUs are re-sent on Positive-ACK timer expiries after earlier transactions have completed
+    from harness import campaign
+    for _ in common.share(range(60 if tier == "quick" else 6000)):
+        nt = rng.choice([1, 2, 2, 3])
+        cfg = campaign.rand_cfg(rng, mode=rng.choice([0, 0, 0, 1]), cktype=rng.choice([0, 2, 3, 15]), req_mode=None)
+        datas = [bytes(rng.getrandbits(8) for _ in range(rng.choice(campaign.SIZES + [20, 33]))) for _ in range(nt)]
+        cancel = (rng.choice(["src", "src", "dst"]), rng.randint(0, 6), True) if rng.random() < 0.6 else None
+        if rng.random() < 0.5:      # the receiver's first PDUs of that transaction are lost: EOF / EOF (cancel) get re-sent
+            faults = [campaign.Fault("d2s", i, "drop", 1) for i in range(rng.randint(1, 4))]
+        else:
+            faults = [campaign.Fault("d2s", rng.randint(0, 6), "drop", 1) for _ in range(rng.choice([0, 1, 2, 4]))] + \
+                campaign.rand_faults(rng, rng.choice([0, 0, 1, 2]), ("drop", "dup", "delay"))
+        case = campaign.TransferCase(cfg, datas, faults, cancel, None, extra_sm=rng.choice([0, 0, 1]), fault_tx=rng.randrange(nt),
+                                     tag="c09eof")
+        case.run()
+        side = case.sides[0]
+        try:
+            n += srcprops.oracle_eof_checksum(hcommon.Trace(*side))
+        except hcommon.Failure as f:
+            v.violation("oracle: " + str(f), {"kind": "source", "ops": side[1], "clause": "EOF checksum", "case": case.describe()})
+            return n
     return n
 
 
@@ -238,12 +260,25 @@ def run(tier, seed):
         "distribution": {f"op{k[0]}/type{k[1]}/code{k[2]}": n for k, n in sorted(dist.items())},
         "samples": [cases[-2][0][:12], cases[3][:2]],
     })
-    v.assumptions = ["crcmod 1.7 computes the Rocksoft-model CRC of Crc.v (validated on every case of this run)"]
+    v.assumptions = list(common.ASSUMPTIONS) + ["crcmod 1.7 computes the Rocksoft-model CRC of Crc.v (validated on every case of this run)"]
     return v.finish()
 
 
 def replay(path):
     data = json.loads(open(path).read())
+    if data.get("clause") == "EOF checksum":
+        from harness import hcommon, srcprops, transfer
+        obs, _ = transfer.replay_ops(data["kind"], data["ops"])
+        try:
+            srcprops.oracle_eof_checksum(hcommon.Trace(data["kind"], data["ops"], obs))
+        except hcommon.Failure as f:
+            print(f"VIOLATION property={PROP} replay={path}")
+            print(" ", f)
+            return 1
+        return 0
+    if "ops" not in data:
+        print("replay file names a theorem/correspondence, not an input")
+        return 0
     impl = Impl()
     try:
         common.build()
